@@ -2,7 +2,7 @@ PROPS["C10"] = P(
     "exploration",
     "word types u8,u16,u32,u64,usize,u128. copy: (width, lengths, from, to, len) are drawn until every branch class computed by the harness from the arguments "
     "(single/multi-word source x single/multi-word destination x src_bit <,=,> dst_bit; for multi-word: 2 or 3+ destination words, source word count relative to the destination's, "
-    "full or partial last destination word) has its quota per word type (12 quick, 60 thorough; hits per class are in notes.copy_classes_<W>), contents random per element, source and "
+    "full or partial last destination word) has its quota per word type (30 quick, 100 thorough; hits per class are in notes.copy_classes_<W>), contents random per element, source and "
     "destination over nine storage backings (fresh, popped, truncated, cleared+refilled, new_unaligned, from_raw_parts with zero/ones/random garbage and 0-3 spare words), len clamped by "
     "source / destination / usize::MAX, plus width 0 and empty ranges; the whole destination and the source are compared with the element-wise loop. apply_in_place / _unchecked with "
     "identity, successor-with-mask, running sum and a mixing function on Vec, Box and &mut [W] backends: recorded arguments of f, number of calls and stored results vs the model "
